@@ -19,16 +19,18 @@ SHARD = 500
 RULE = ("a case = (syncer, history, exported method found by reflection); histories: for every halting route (bridge: deposit count "
         "above / below the expected index; L1 info tree: announced root differs, announced leaf count above / below), two shapes "
         "(inconsistency as first event of the block / after two valid leaves that get rolled back), and EVERY reorg point from 0 to the last processed block: "
-        "healthy prefix, query, inconsistent block, query, further blocks, query, reorg above the tip (removes nothing), query, reorg at "
-        "the point, query, valid continuation, query; plus halted-on-empty-store, never-halted, announcement-on-empty-tree histories and "
+        "healthy prefix, query, inconsistent block, query, further blocks, query, reorg above the tip (removes nothing), query, the reorg "
+        "at the point with an injected storage fault after the block rows were deleted (tree purge failing via a trigger / COMMIT failing "
+        "via a deferred foreign key: error, nothing removed, must stay halted), query, block, the other fault, query, reorg at the point, "
+        "query, valid continuation, query; the history of seeded change C14_1 (blocks 1,2, inconsistent block 3, failing Reorg(2), Reorg(2)); plus halted-on-empty-store, never-halted, announcement-on-empty-tree histories and "
         "random histories of blocks (0-3 leaves) / faults / duplicate block numbers / reorgs / queries; two regression histories with a "
         "deposit-count gap right after a reorg that removed leaves, of exactly the number of removed leaves (went unnoticed before fix "
         "246bc10). Block numbers increase between reorgs. "
         "A case is non-trivial when its history has a query operation after a ProcessBlock that returned the inconsistency error; "
         "distinct = distinct (syncer, method, history)")
 ASSUMPTIONS = ["block numbers are handed to ProcessBlock in strictly increasing order between reorgs (what sync.EVMDriver does)",
-               "no database faults (bridgesync returns ErrInconsistentState without halting for AddLeaf errors other than tree.ErrInvalidIndex; "
-               "reaching that needs a failing database and is outside the model)",
+               "database faults are modelled and injected for Reorg only (tree purge / commit failing after the block rows were deleted); "
+               "faults inside ProcessBlock are outside the model (both processors return them as plain errors and roll back)",
                "the Merkle function of the L1 info tree is an input of the model (roots computed independently by the harness; C11 covers the tree)",
                "facade methods are called with zero / small arguments (context.Background(), 1, zero hash, nil); the guard is the first statement "
                "so its effect does not depend on the arguments",
@@ -64,6 +66,8 @@ def coq_op(o, evf):
         return "OpBlock %s %s" % (cN(o.get("num", 0)), clist([evf(e) for e in o.get("evs") or []]))
     if o["k"] == "reorg":
         return "OpReorg %s" % cN(o.get("num", 0))
+    if o["k"] == "reorg_fault":
+        return "OpReorgFault %s %s" % ("FTree" if o.get("fault") == "tree" else "FCommit", cN(o.get("num", 0)))
     return "OpQuery"
 
 
@@ -144,18 +148,22 @@ def finding_key(o):
                 acc.append((num, dcs))
                 if dcs:
                     cache = dcs[-1] + 1
-        elif op["k"] == "reorg":
+        elif op["k"] == "reorg" or (op["k"] == "reorg_fault" and s["out"] == "ok"):
             b = op.get("num", 0)
             kept = [x for x in acc if x[0] < b]
             if len(kept) != len(acc):
                 h = False
             acc = kept
+            cache = None
+        elif op["k"] == "reorg_fault" and op.get("fault") == "commit":
+            cache = None
     return None
 
 
 def distribution(outs):
     d = {"cases_bridge": 0, "cases_l1infotree": 0, "histories": 0, "by_route": {}, "query_outcomes": {}, "block_outcomes": {},
-         "queries_while_halted_inconsistent": 0, "noop_reorgs": 0, "deleting_reorgs": 0, "harness_errors": 0}
+         "queries_while_halted_inconsistent": 0, "noop_reorgs": 0, "deleting_reorgs": 0, "failed_reorgs_under_fault": 0,
+         "fault_armed_but_not_hit": 0, "harness_errors": 0}
     seen = set()
     for o in outs:
         i = o["in"]
@@ -180,6 +188,8 @@ def distribution(outs):
                 d["block_outcomes"][s["out"]] = d["block_outcomes"].get(s["out"], 0) + 1
             elif first and op["k"] == "reorg":
                 d["noop_reorgs" if s["rows"] == prev_rows else "deleting_reorgs"] += 1
+            elif first and op["k"] == "reorg_fault":
+                d["fault_armed_but_not_hit" if s["out"] == "ok" else "failed_reorgs_under_fault"] += 1
             prev_rows = s["rows"]
     return d
 
